@@ -131,7 +131,7 @@ def reqKind : Req → String
   | .ls .. => "ls" | .add .. => "add" | .upd .. => "upd" | .rm .. => "rm" | .other => "other"
 
 def showModel (i : Input) : String :=
-  let m := runCtx Gen.ctxSites i
+  let m := ReqM.runReq Gen.ctxSites Gen.reqSites ReqM.genT i
   showRes m.res ++ " " ++ (if m.trace.isEmpty then "-" else ",".intercalate (m.trace.map showReq)) ++
     " swarm<" ++ toString m.swarmMax ++ " " ++ ",".intercalate ((List.range i.n).map (fun c => showState (m.final c)))
 
@@ -192,13 +192,13 @@ def answer (ws : List String) : String :=
   | some (i, o) =>
     if !wf i then
       -- outside the quantifier (lying daemon / self-contradictory pin): model agreement only
-      if allowedCtx Gen.ctxSites i o then "ok arm=" ++ arm i ++ " trivial"
+      if ReqM.allowedReq Gen.ctxSites Gen.reqSites ReqM.genT i o then "ok arm=" ++ arm i ++ " trivial"
       else "diff arm=" ++ arm i ++ " model=" ++ showModel i
     else
     let failed := (clauses i o).filter (fun c => !c.2)
     if !failed.isEmpty then
       "propfail " ++ ",".intercalate (failed.map (·.1)) ++ " arm=" ++ arm i
-    else if !allowedCtx Gen.ctxSites i o then
+    else if !ReqM.allowedReq Gen.ctxSites Gen.reqSites ReqM.genT i o then
       "diff arm=" ++ arm i ++ " model=" ++ showModel i
     else "ok arm=" ++ arm i
 
